@@ -1,7 +1,7 @@
 use crate::effects::Effect;
 use crate::value::Value;
 use serde::{Deserialize, Serialize};
-use std::collections::{HashMap, VecDeque};
+use std::collections::{HashMap, HashSet, VecDeque};
 
 pub type ProcessId = usize;
 
@@ -133,6 +133,9 @@ pub struct Process {
     pub result: Option<Result<Value, crate::error::Error>>,
     pub select_state: Option<SelectState>,
     pub awaiting: HashMap<ProcessId, Option<Value>>,
+    /// Process sources of the current select whose state (finished or not) has not been reported
+    /// since that select began. The select's sources are not evaluated while this is non-empty.
+    pub await_unanswered: HashSet<ProcessId>,
 }
 
 impl Process {
@@ -146,6 +149,7 @@ impl Process {
             result: None,
             select_state: None,
             awaiting: HashMap::new(),
+            await_unanswered: HashSet::new(),
         }
     }
 }
